@@ -53,7 +53,7 @@ func runProperty(t *testing.T, id, sub, rule string, p *profile) {
 
 func TestC01TaskHeldExactlyOnce(t *testing.T) {
 	p := &profile{
-		name: "C01", ops: generalOps(), minSteps: 5, maxSteps: 60, instances: []string{"", "a", "a/b"},
+		name: "C01", ops: generalOps(), minSteps: 5, maxSteps: 60, instances: []string{"", "a", "a/b"}, mixedDepth: true,
 		queues: defaultQueues, workers: [2]int{1, 4}, actions: [2]int{2, 4}, invDepth: [2]int{0, 2},
 		syncKinds: allSyncKinds, finalDrain: true,
 		nontrivial: func(l labels) bool {
@@ -190,7 +190,7 @@ func TestC06TimeoutsWakeupsNoLeaks(t *testing.T) {
 		"raceTimer", "raceTimer", "raceTimer", "raceCancel",
 	}
 	p := &profile{
-		name: "C06", ops: ops, minSteps: 5, maxSteps: 70, instances: []string{"", "a"}, oddClasses: true,
+		name: "C06", ops: ops, minSteps: 5, maxSteps: 70, instances: []string{"", "a"}, oddClasses: true, mixedDepth: true,
 		queues: defaultQueues, workers: [2]int{1, 4}, actions: [2]int{1, 4}, invDepth: [2]int{0, 3},
 		syncKinds: allSyncKinds, finalDrain: true,
 		nontrivial: func(l labels) bool {
@@ -350,7 +350,7 @@ func TestC04NoTaskQueuedWhileWorkerWaits(t *testing.T) {
 		"advance", "advanceSmall", "advanceSmall", "tick",
 	}
 	p := &profile{
-		name: "C04", ops: ops, minSteps: 5, maxSteps: 50, instances: []string{"", "a"},
+		name: "C04", ops: ops, minSteps: 5, maxSteps: 50, instances: []string{"", "a"}, mixedDepth: true,
 		queues: defaultQueues, workers: [2]int{2, 5}, actions: [2]int{2, 4}, invDepth: [2]int{0, 2},
 		syncKinds: []string{"auto", "auto", "auto", "idle", "completed"}, finalDrain: true,
 		nontrivial: func(l labels) bool {
